@@ -57,7 +57,7 @@ m = {
    "guard": "--cfg adblock_verif (scheduling points additionally need --cfg adblock_verif_shuttle)",
    "enable": "./check sets RUSTFLAGS='--cfg adblock_verif' and builds /verif/sim against /repo by path",
    "baseline_off_cmd": "cd /repo && cargo test --workspace --no-fail-fast --offline",
-   "source_commits": ["3af0957"],
+   "source_commits": ["3af0957", "29c8bcf"],
    "add_only": True,
  },
  "engines": [
@@ -65,7 +65,7 @@ m = {
     "kind_free_text":"(C19 additionally uses /verif/sim-shuttle: the same harness sources built against a generated shuttle-redirected copy of /repo/src) seeded deterministic simulator in Rust: one run = fresh thread with simulated clock (hook), seeded allocator for the rule size class, interposed getrandom for hash seeds, in-memory disk; 16 worker processes; minimiser and replay"}
  ],
  "checks": checks,
- "notes": "fix: commits in /repo: 3abe90d e53bf23 ea52f20 3a7bef6 700abd6 f98e7f0 42030f9 fc19ce0 d3ab54c fff4a50 e7354e5 (see known_findings.json). Known findings are replayed from /verif/witnesses and reported as KNOWN-FINDING lines.",
+ "notes": "fix: commits in /repo: 3abe90d e53bf23 ea52f20 3a7bef6 700abd6 f98e7f0 42030f9 fc19ce0 d3ab54c fff4a50 e7354e5 e37a3a0 (see known_findings.json). Known findings are replayed from /verif/witnesses and reported as KNOWN-FINDING lines.",
  "not_applicable": [{"property_id":k,"reason":v} for k,v in NA.items()],
 }
 json.dump(m, open('/verif/MANIFEST.json','w'), indent=1)
